@@ -23,12 +23,16 @@ DeltaOn(s, tag, bs) == DeltaOnE(s, tag, bs, FALSE)
 \* what happens to the bystander variable N2
 N2Variants(s) == { {}, {Entry("all", "override", "N2", <<"n2o">>)}, {Entry(s, "append", "N2", <<"n2a">>)} }
 
-Prevs == {Unset, Val(<<>>), Val(<<"p">>)}
+\* (the last two: a value that already ends with the delimiter one of the deltas will use)
+Prevs == {Unset, Val(<<>>), Val(<<"p">>), Val(<<"p", "A:">>), Val(<<"p", "S:">>)}
 
 C04Cases(allSubsets, ownSubsets, scopes) ==
   { [E |-> DeltaOnE("all", "A", ba, ev) \cup DeltaOnE(s, "S", bs, ev) \cup n2, prev |-> pv]
       : ev \in BOOLEAN, ba \in allSubsets, bs \in ownSubsets, s \in scopes, n2 \in UNION {N2Variants(x) : x \in scopes},
         pv \in Prevs }
+  \* the scope's delta holding exactly the entries of the all-delta (same behaviours, same values): both count
+  \cup { [E |-> DeltaOnE("all", "A", ba, ev) \cup DeltaOnE(s, "A", ba, ev), prev |-> pv]
+      : ev \in BOOLEAN, ba \in allSubsets, s \in scopes, pv \in Prevs }
 
 Env0(pv) == [n \in NameSet |-> IF n = "N1" THEN pv ELSE Val(<<"z">>)]
 
